@@ -1,3 +1,3 @@
 From Coq Require Import Extraction ExtrOcamlBasic.
 From MTV Require Import Transport.Framing.
-Extraction "model.ml" announce frame write_msg write_stream wire carriableb read_stream tr_stream cut.
+Extraction "model.ml" announce frame write_header write_msg write_stream wire carriableb read_stream tr_stream cut.
